@@ -122,6 +122,7 @@ func main() {
 			line, err := in.ReadString('\n')
 			if len(line) > 0 {
 				fmt.Fprintln(w, execLine(strings.TrimRight(line, "\n")))
+				w.Flush() // a process that dies later (fatal error, os.Exit) keeps the answers given so far
 				if exitAfterOp {
 					w.Flush()
 					os.Exit(0)
